@@ -7,3 +7,8 @@ package hap
 var VerifWriteGate = func(con *Connection, sealed []byte) {}
 
 func verifWriteGate(con *Connection, sealed []byte) { VerifWriteGate(con, sealed) }
+
+// VerifWriteEnter is called when EncryptedWrite is entered, i.e. after Write found an encrypter and before it is used.
+var VerifWriteEnter = func(con *Connection) {}
+
+func verifWriteEnter(con *Connection) { VerifWriteEnter(con) }
